@@ -584,8 +584,31 @@ impl<'a> Model<'a> {
         let code: i32 = match (failure.code, observed) {
             (Some(c), Some((got, _, _))) => {
                 if got != c {
+                    // the codes of file statements are the file protocol's business
+                    let file_stmt = matches!(
+                        &s.kind,
+                        StmtKind::Open { .. }
+                            | StmtKind::Close(_)
+                            | StmtKind::InputFile { .. }
+                            | StmtKind::LineInputFile { .. }
+                            | StmtKind::InputCon { .. }
+                            | StmtKind::LineInputCon { .. }
+                            | StmtKind::Kill(_)
+                            | StmtKind::NameAs(..)
+                            | StmtKind::Put { .. }
+                            | StmtKind::Get { .. }
+                            | StmtKind::Field { .. }
+                            | StmtKind::Print {
+                                dev: Dev::File(_),
+                                ..
+                            }
+                    );
                     return self.diverge(
-                        Class::ErrValue,
+                        if file_stmt {
+                            Class::FileProtocol
+                        } else {
+                            Class::ErrValue
+                        },
                         Some(s.id),
                         format!(
                             "statement {} ({}) must fail with error {}, implementation raised {}",
